@@ -14,3 +14,7 @@ def run(v, tier, seed, replay):
                  assumptions=["a start drained in a later cycle than its commit/drop leaves a permanent entry (open finding D4, C08 example); not reachable at the harness' granularity of whole cycles"])
     if not replay and not v.violations:
         c09.run_scenarios(v, {"start-parked-%d" % c: c09.sc_start_parked(c) for c in (0, 1)})
+    # D21 / C08f: a trace whose cancel was parked on a full queue and whose root finished elsewhere must not be retained
+    # (in the default configuration the cancel is a no-op, but the commit still has to release the trace)
+    if not replay and not v.violations:
+        c09.run_scenarios(v, {"cancel-parked-%s" % k: c09.sc_cancel_parked_elsewhere(k) for k in c09.PARKED_VARIANTS}, jobs=6)
